@@ -226,7 +226,8 @@ structure Layer where
   isEsd : Bool                       -- `variant_type == ECU_SHARED_DATA`
   links : List (Id × Obj)            -- `self._build_odxlinks()`
   importRefs : List Ref
-  parentKey : Option String          -- key of the PARENT-REF link (at most one parent is modelled)
+  parentKeys : List String           -- keys of the PARENT-REF links, in `PARENT-REFS` order
+  prio : Nat                         -- `variant_type.inheritance_priority`
   refs : List LinkRef                -- in the order `_resolve_odxlinks` visits them
   snrefs : List SnRef                -- in the order `_resolve_snrefs` visits them
   locals : List (String × List Obj)  -- pool name ↦ locally defined objects
@@ -313,23 +314,41 @@ def buildGlobal (extra : List (Id × Obj)) (ls : List Layer) : Heap × DbObj :=
   let merged := (extra ++ ls.flatMap (·.links)).foldl (fun acc e => dset e.1 e.2 acc) []
   hUpdate (⟨[]⟩, []) merged true
 
-/-- objects of pool `p` available in layer `l` after value inheritance (`_compute_available_objects`
-    restricted to at most one parent, no NOT-INHERITED lists); `fuel` bounds the parent chain -/
+/-- `[pr.layer for pr in parent_refs]`: the layers the PARENT-REF links of `l` were resolved to, in
+    `PARENT-REFS` order -/
+def parentsOf (all : List Layer) (res : Resolved) (l : Layer) : List Layer :=
+  l.parentKeys.filterMap fun k =>
+    match dget res k with
+    | none => none
+    | some u => findLayer all u
+
+/-- stable insertion, descending by `inheritance_priority` -/
+def insertDesc (x : Layer) : List Layer → List Layer
+  | [] => [x]
+  | y :: ys => if x.prio < y.prio then y :: insertDesc x ys else x :: y :: ys
+
+/-- `sorted(parent_refs, key=lambda pr: pr.layer.variant_type.inheritance_priority, reverse=True)`
+    (stable: parents of equal priority keep their `PARENT-REFS` order) -/
+def sortDesc : List Layer → List Layer
+  | [] => []
+  | x :: xs => insertDesc x (sortDesc xs)
+
+/-- objects of pool `p` available in layer `l` after value inheritance
+    (`HierarchyElement._compute_available_objects` for any number of parents; restricted to hierarchies
+    without NOT-INHERITED lists and without inheritance conflicts — two different objects of one name
+    offered by parents of the same priority and not overridden locally raise `OdxError`, which is
+    property C09's subject); `fuel` bounds the depth of the hierarchy -/
 def visible (all : List Layer) (res : Resolved) (p : String) : Nat → Layer → List Obj
   | 0, l => match dget l.locals p with | some xs => xs | none => []
   | fuel + 1, l =>
     let loc := match dget l.locals p with | some xs => xs | none => []
     if l.isEsd then loc                      -- DiagLayer._compute_available_objects: local objects only
     else
-      let parent := match l.parentKey with
-        | none => none
-        | some k => match dget res k with
-          | none => none
-          | some u => findLayer all u
-      let inh := match parent with
-        | none => []
-        | some pl => visible all res p fuel pl
-      -- `result_dict`: inherited objects first (first of a name wins), then the local ones override
+      -- `for parent_ref in self._get_parent_refs_sorted_by_priority(reverse=True)`: the objects each
+      -- parent offers, highest priority first
+      let inh := (sortDesc (parentsOf all res l)).flatMap fun pl => visible all res p fuel pl
+      -- `result_dict`: inherited objects first (the first of a name wins: a later one has a lower
+      -- priority, or is the same object, or is overridden locally), then the local ones override
       let d0 := inh.foldl (fun acc o => dsetDefault o.name o acc) ([] : List (String × Obj))
       let d1 := loc.foldl (fun acc o => dset o.name o acc) d0
       d1.map (·.2)
@@ -376,22 +395,16 @@ def refresh (extra : List (Id × Obj)) (ls : List Layer) : Except Err Loaded :=
     | .error e => .error e
     | .ok sn => .ok ⟨h, s.2, links, sn⟩
 
-/-- the parent chain of a layer, the layer itself first -/
-def chain (all : List Layer) (res : Resolved) : Nat → Layer → List Layer
+/-- the layers `retarget_snrefs` visits, in the order it visits them: the layer itself, then — for each
+    PARENT-REF in `PARENT-REFS` order — everything the recursive call on that parent visits (depth first;
+    a layer reachable over several paths is visited once per path) -/
+def reach (all : List Layer) (res : Resolved) : Nat → Layer → List Layer
   | 0, l => [l]
-  | fuel + 1, l =>
-    match l.parentKey with
-    | none => [l]
-    | some k =>
-      match dget res k with
-      | none => [l]
-      | some u =>
-        match findLayer all u with
-        | none => [l]
-        | some p => l :: chain all res fuel p
+  | fuel + 1, l => l :: (parentsOf all res l).flatMap fun p => reach all res fuel p
 
 /-- `retarget_snrefs(database, diag_layer)`: the short-name references of the layer and of all its
-    ancestors are resolved again, all in the context of `diag_layer` -/
+    direct and indirect parents are resolved again, all in the context of `diag_layer` (the context
+    object is shared by the recursive calls; its `diag_layer` is set by the outermost call only) -/
 def retarget (all : List Layer) (res : Resolved) (target : Layer) : Except Err Resolved :=
   let rec go : List Layer → Except Err Resolved
     | [] => .ok []
@@ -402,6 +415,6 @@ def retarget (all : List Layer) (res : Resolved) (target : Layer) : Except Err R
         match go ls with
         | .error e => .error e
         | .ok rs => .ok (r ++ rs)
-  go (chain all res all.length target)
+  go (reach all res all.length target)
 
 end OdxVerif.OdxLink
